@@ -11,7 +11,7 @@ from .common import (BaseHooks, V, finite, fnum, is_qmat, key, logspace_sigma, n
 PROP = "C04"
 WORLDS_QUICK = ("pkg", "flat")
 WORLDS_THOROUGH = ("pkg", "flat", "pkg_then_flat", "flat_then_pkg")
-FAMILIES = ("generic", "herm", "unitary", "cI", "I_lowrank", "tri", "diagrep", "spread")
+FAMILIES = ("generic", "herm", "unitary", "cI", "I_lowrank", "tri", "diagrep", "spread", "perm")
 B_KINDS = ("gauss", "gauss", "eigvec", "zero", "unit", "Ax_int")
 SWEEP_FOCUS = ["solve", "_solve_lower_triangular_quat", "_solve_upper_triangular_quat",
                "quaternion_lu", "quat_matmat"]
@@ -46,6 +46,20 @@ def gen_system(R, nmax):
     elif fam == "tri":
         A = {"gen": "tri", "n": n, "seed": s, "upper": R.random() < 0.5,
              "off": R.choice([0.1, 0.3])}
+    elif fam == "perm":
+        # zero-diagonal unitary matrices (cyclic shift, anti-diagonal, random derangement-ish
+        # permutation) with unit-quaternion entries: v^H A v = 0 for unit-vector right-hand
+        # sides, so the Hessenberg matrix has exact zeros on its diagonal (Givens on a zero pivot)
+        kind = R.choice(["shift", "anti", "random"])
+        if kind == "shift":
+            pidx = [(i + 1) % n for i in range(n)]
+        elif kind == "anti":
+            pidx = [n - 1 - i for i in range(n)]
+        else:
+            pidx = list(range(n))
+            R.shuffle(pidx)
+        units = [[1.0, 0, 0, 0], [0, 1.0, 0, 0], [0, 0, 1.0, 0], [0.6, 0, 0.8, 0], [0.5, 0.5, 0.5, 0.5], [-1.0, 0, 0, 0]]
+        A = {"gen": "perm", "p": pidx, "phases": [R.choice(units) for _ in range(n)]}
     elif fam == "spread":
         # entries of widely different magnitude without unitary mixing (still cond <= 1e3):
         # a diagonal with graded moduli, or a generic block next to a large multiple of I
@@ -68,7 +82,7 @@ def gen_system(R, nmax):
         kd = R.randint(1, min(3, n))
         dist = R.sample(pool, kd)
         A = {"gen": "diagq", "vals": [R.choice(dist) for _ in range(n)]}
-    bk = R.choice(B_KINDS)
+    bk = R.choice(B_KINDS if fam != "perm" else ("unit", "unit", "gauss", "Ax_int", "eigvec"))
     sb = R.randrange(10 ** 6)
     if bk == "gauss":
         b = {"gen": "gauss", "m": n, "n": 1, "seed": sb}
@@ -292,6 +306,10 @@ class Hooks(BaseHooks):
         its = info.get("iterations")
         if isinstance(its, (int, np.integer)) and its > n:
             viol.append(V("liveness", i, f"iterations = {its} > n = {n}"))
+        # the iteration cap: the loop leaves after cycle min(cap + 1, n) (the property observes
+        # "x for every iteration cap" as the restart iterate of every cycle)
+        if cap is not None and not hard and isinstance(its, (int, np.integer)) and its > min(cap + 1, n):
+            viol.append(V("cap", i, f"max_iter = {cap} but {its} cycles were run (n = {n})"))
         # oracle 5: bounded liveness once faults stop (also under forced LU failure:
         # the documented fallback is the unpreconditioned solve)
         live_ok = (not ("line" in fault)) and fault.get("utri_zero") is None and cap is None \
